@@ -598,7 +598,7 @@ def audit_plan(e, parts=None, schema=True, structure=True, ref=None):
                 part_index_kinds = {dkind((p if isinstance(p, pd.Index) else p.index).dtype) for p in parts if len(p)}
                 if not problems and not isinstance(whole.index, pd.MultiIndex) and not (dkind(meta.index.dtype) == "O" and len(part_index_kinds | {dkind(whole.index.dtype)}) >= 1 and dkind(whole.index.dtype) != "O" and len({dkind((p if isinstance(p, pd.Index) else p.index).dtype) for p in parts}) > 1):
                     a, b = dkind(meta.index.dtype), dkind(whole.index.dtype)
-                    if a != b and not _schema_promotion_ok(a, b, whole.index.to_series()):
+                    if a != b and not _schema_promotion_ok(a, b, whole.index.to_series()) and not (a in ("i", "b") and b in ("f", "O") and _ref_index_kind(ref, b)):
                         problems.append({"oracle": "plan_schema", "symptom": "index-dtype-kind", "got": str(whole.index.dtype), "exp": str(meta.index.dtype)})
     return problems, stats
 
@@ -614,6 +614,16 @@ def _ref_kind(ref, j, kind):
         if j is None:
             return isinstance(ref, pd.Series) and dkind(ref.dtype) == kind
         return isinstance(ref, pd.DataFrame) and dkind(ref.iloc[:, j].dtype) == kind
+    except Exception:
+        return False
+
+
+def _ref_index_kind(ref, kind):
+    """an integer column promoted upstream (missing values that were dropped again) may since have become the index"""
+    from vmon.compare import dkind
+
+    try:
+        return isinstance(ref, (pd.DataFrame, pd.Series)) and not isinstance(ref.index, pd.MultiIndex) and dkind(ref.index.dtype) == kind
     except Exception:
         return False
 
